@@ -488,6 +488,74 @@ impl VerifTable {
     }
 }
 
+/// A `FilesEntryIterator` (the iterator over the files of one level >= 1) over table files built
+/// from the given entry lists, with tuple-typed keys.
+pub struct LevelCursor {
+    iter: crate::versioning::file_iterators::FilesEntryIterator,
+}
+
+impl LevelCursor {
+    /// `files[i]` = (file number, sorted entries): every file is written with the real table
+    /// builder under `options.db_path()/data` and described by a `FileMetadata` with its first and
+    /// last key, in the given order.
+    pub fn new(options: &crate::DbOptions, files: &[(u64, Vec<Entry>)]) -> Result<Self, String> {
+        use crate::versioning::file_metadata::FileMetadata;
+        let table_cache = Arc::new(crate::table_cache::TableCache::new(options.clone(), 100));
+        let mut metadata = vec![];
+        for (number, entries) in files {
+            let (first, last) = match (entries.first(), entries.last()) {
+                (Some(first), Some(last)) => (first, last),
+                _ => return Err("empty file".to_string()),
+            };
+            let size = table_build(options, *number, entries)?;
+            let mut meta = FileMetadata::new(*number);
+            meta.set_file_size(size);
+            meta.set_smallest_key(Some(to_internal_key(&(first.0.clone(), first.1, first.2))?));
+            meta.set_largest_key(Some(to_internal_key(&(last.0.clone(), last.1, last.2))?));
+            metadata.push(Arc::new(meta));
+        }
+        Ok(LevelCursor {
+            iter: crate::versioning::file_iterators::FilesEntryIterator::new(
+                metadata,
+                table_cache,
+                crate::ReadOptions::default(),
+            ),
+        })
+    }
+    pub fn seek(&mut self, user_key: &[u8], sequence: u64) -> Result<(), String> {
+        use crate::RainDbIterator;
+        let key = crate::key::InternalKey::new_for_seeking(user_key.to_vec(), sequence);
+        self.iter.seek(&key).map_err(|e| e.to_string())
+    }
+    pub fn seek_to_first(&mut self) -> Result<(), String> {
+        use crate::RainDbIterator;
+        self.iter.seek_to_first().map_err(|e| e.to_string())
+    }
+    pub fn seek_to_last(&mut self) -> Result<(), String> {
+        use crate::RainDbIterator;
+        self.iter.seek_to_last().map_err(|e| e.to_string())
+    }
+    pub fn next(&mut self) {
+        use crate::RainDbIterator;
+        self.iter.next();
+    }
+    pub fn prev(&mut self) {
+        use crate::RainDbIterator;
+        self.iter.prev();
+    }
+    pub fn is_valid(&self) -> bool {
+        use crate::RainDbIterator;
+        self.iter.is_valid()
+    }
+    pub fn current(&self) -> Option<Entry> {
+        use crate::RainDbIterator;
+        self.iter.current().map(|(key, value)| {
+            let (user_key, seq, op) = ikey_tuple(key);
+            (user_key, seq, op, value.clone())
+        })
+    }
+}
+
 /// A `MergingIterator` over memtable-backed children, with tuple-typed keys.
 pub struct MergeCursor {
     iter: crate::versioning::file_iterators::MergingIterator,
